@@ -123,22 +123,35 @@ Record filters := { f_ids : list N; f_groups : list N; f_statuses : list N }.
 Definition validate (f : filters) : bool :=
   negb (Nat.eqb (length (f_ids f) + length (f_groups f) + length (f_statuses f)) 0).
 
-(* storage.ListResult, projected (State.Start / State.End are C13's business) *)
-Record result := { x_id : N; x_group : N; x_name : N; x_descr : N; x_submit : Z; x_status : N }.
+(* storage.ListResult (State as status, start, end) *)
+Record result := { x_id : N; x_group : N; x_name : N; x_descr : N; x_submit : Z; x_status : N;
+                   x_start : Z; x_end : Z }.
 
-(* listResultsFunc *)
+(* cosmosdb listResultsFunc: the searchEntry document as it is *)
 Definition result_of_row (r : row) : result :=
   {| x_id := r_id r; x_group := r_group r; x_name := r_name r; x_descr := r_descr r;
-     x_submit := r_submit r; x_status := r_status r |}.
+     x_submit := r_submit r; x_status := r_status r; x_start := r_start r; x_end := r_end r |}.
+
+(* sqlite: how an INTEGER time column becomes a time.Time in listResultsFunc: fieldToState / timeFromField,
+   the codec Read uses (since fix of finding S8; before it time.Unix(0, column) returned the wrapped
+   UnixNano of an unset Start / End as 1754-08-30T22:43:41.128654848Z): 0 and every instant before the
+   Unix epoch are the zero time. *)
+Definition sq_time_of_col (c : Z) : Z := if Z.leb c 0 then zero_time_ns else c.
+
+(* sqlite listResultsFunc *)
+Definition sq_result_of_row (r : row) : result :=
+  {| x_id := r_id r; x_group := r_group r; x_name := r_name r; x_descr := r_descr r;
+     x_submit := r_submit r; x_status := r_status r;
+     x_start := sq_time_of_col (r_start r); x_end := sq_time_of_col (r_end r) |}.
 
 (* what the producer goroutine does with the channel, in order *)
 Inductive sev := SItem (x : result) | SErr | SClose.
 
 (* the goroutine submitted to context.Pool: `defer close(results)`; one send per row; if the statement
    failed, one Stream{Err: err} *)
-Definition produce (res : option (list row)) : list sev :=
+Definition produce (conv : row -> result) (res : option (list row)) : list sev :=
   match res with
-  | Some rows => map (fun r => SItem (result_of_row r)) rows ++ [SClose]
+  | Some rows => map (fun r => SItem (conv r)) rows ++ [SClose]
   | None => [SErr; SClose]
   end.
 
@@ -183,7 +196,7 @@ Definition sq_build_search (f : filters) : query * binds :=
 (* reader.Search: Validate, else (nil, error); otherwise the stream *)
 Definition sq_search (f : filters) (tb : table) : option (list sev) :=
   if validate f then
-    let (q, b) := sq_build_search f in Some (produce (run_query q b tb))
+    let (q, b) := sq_build_search f in Some (produce sq_result_of_row (run_query q b tb))
   else None.
 
 (* reader.List: "... FROM plans ORDER BY submit_time DESC" + " LIMIT $limit;" iff limit > 0 *)
@@ -195,7 +208,7 @@ Definition sq_list_query (limit : Z) : query * binds :=
         {| b_args := []; b_named := [] |}).
 
 Definition sq_list (limit : Z) (tb : table) : list sev :=
-  let (q, b) := sq_list_query limit in produce (run_query q b tb).
+  let (q, b) := sq_list_query limit in produce sq_result_of_row (run_query q b tb).
 
 (* ------------------------------------------------------------------ cosmosdb: buildSearchQuery *)
 
@@ -216,7 +229,7 @@ Definition cs_build_search (w : N) (f : filters) : query * binds :=
 
 Definition cosmos_search (w : N) (f : filters) (s : cstore) : option (list sev) :=
   if validate f then
-    let (q, b) := cs_build_search w f in Some (produce (run_query q b (cs_search s)))
+    let (q, b) := cs_build_search w f in Some (produce result_of_row (run_query q b (cs_search s)))
   else None.
 
 (* reader.List: listPlans + " OFFSET 0 LIMIT @limit" iff limit > 0 *)
@@ -228,4 +241,4 @@ Definition cs_list_query (w : N) (limit : Z) : query * binds :=
         {| b_args := []; b_named := [(PSwarm, PV w)] |}).
 
 Definition cosmos_list (w : N) (limit : Z) (s : cstore) : list sev :=
-  let (q, b) := cs_list_query w limit in produce (run_query q b (cs_search s)).
+  let (q, b) := cs_list_query w limit in produce result_of_row (run_query q b (cs_search s)).
